@@ -14,6 +14,10 @@ ASSUME_POOL = [
 ]
 
 
+# checks that also run the small schedule-independent world of vf/eager.py (loop with asyncio.eager_task_factory)
+EAGER_FAMILY = {"C06", "C10", "C11"}
+
+
 def scaled_floors(cid, names, tier, ratio):
     """Coverage floors: calibrated on the unchanged tree (tools/calibrate.py -> vf/floors.json) with a wide margin."""
     import json
@@ -28,7 +32,8 @@ def scaled_floors(cid, names, tier, ratio):
     except OSError:
         cal = {}
     mult = 1 if tier == "quick" else max(1.0, ratio * 0.5)
-    names = list(names) + ["env.debug_logging_cases"]  # every check runs a share of its executions with the library's loggers at DEBUG
+    # every check runs a share of its executions with the library's loggers at DEBUG / with a custom (lazy) task factory
+    names = list(names) + ["env.debug_logging_cases", "env.custom_task_factory_cases"] + (["eager.group_ids_ok", "eager.cancel", "eager.closed"] if cid in EAGER_FAMILY else [])
     return {k: max(1, int(cal.get(k, 1) * mult)) for k in names}
 
 
@@ -71,6 +76,8 @@ class PoolCheck:
             from . import sweeps
 
             fams.append(("sweep", sweeps.count(self.sweeps, tier)))
+        if self.cid in EAGER_FAMILY:
+            fams.append(("eager", 400 if tier == "quick" else 12000))
         return fams
 
     def floors(self, tier):
@@ -80,6 +87,10 @@ class PoolCheck:
         return 900 if tier == "quick" else 7200
 
     def make_case(self, fam, seed, i, tier):
+        if fam == "eager":
+            from . import eager
+
+            return eager.make_case(seed, self.cid, i)
         if fam == "random":
             return gen.Gen(f"{seed}:{self.cid}:{i}", self.prof).scenario()
         if fam == "known":
@@ -91,6 +102,10 @@ class PoolCheck:
         return sweeps.case(self.sweeps, seed, i, tier)
 
     def run_case(self, case, verbose=False):
+        if case.get("eager"):
+            from . import eager
+
+            return eager.run_case(self.mods, case, verbose)
         from .world import World
 
         w = World(case, self.mods, focus=self.cid)
@@ -429,7 +444,7 @@ reg(C06Check(
     lambda s: s.get("C06.mixed", 0) > 0 or s.get("C06.accepted_calls", 0) > 0,
     6000, 120000,
     floors={"C06.mixed": 300, "C06.reject.AlreadyEnded": 300, "C06.reject.AlreadyCancelled": 20, "C06.reject.InvalidTaskID": 300, "C06.delivered_exact": 1000,
-            "C06.session_cancel_commands": 100, "C17.decoy_lines": 100, "q.wait": 500, "q.got.pending": 1},
+            "C06.session_cancel_commands": 100, "C17.decoy_lines": 100, "q.wait": 500, "q.got.pending": 1, "flush_inline": 100},
 ))
 
 reg(PoolCheck(
@@ -495,12 +510,12 @@ reg(C12Check(
 ))
 
 reg(C13Check(
-    "C13", P(w={"flush": 10, "cancel": 5, "open": 8, "intruder": 4, "reject": 0}, cb=0.85, cb_async=0.7, cb_gate=0.5, gate=0.4),
+    "C13", P(w={"flush": 10, "cancel": 5, "open": 8, "intruder": 4, "reject": 0, "combo": 3}, cb=0.85, cb_async=0.7, cb_gate=0.5, gate=0.4, iflush=0.2),
     "random scenarios with 1-3 overlapping flush() calls while tasks end, are cancelled and sit in gated async callbacks; "
     "non-trivial = a flush was suspended while a callback was in progress; distinct by signature",
     lambda s: s.get("C13.flush_overlap_cb", 0) > 0 or s.get("C13.flush_suspended", 0) > 0,
     6000, 120000,
-    floors={"C13.flush_returned": 4000, "C13.flush_overlap_cb": 150, "C13.forgotten_probe": 5000, "C13.server.kept": 20, "C13.server.flush_answered": 20, "flush_abandoned": 50},
+    floors={"C13.flush_returned": 4000, "C13.flush_overlap_cb": 150, "C13.forgotten_probe": 5000, "C13.server.kept": 20, "C13.server.flush_answered": 20, "flush_abandoned": 50, "flush_inline": 500, "flush_inline_abandoned_by_cancel": 20},
 ))
 
 reg(PoolCheck(
